@@ -311,7 +311,7 @@ def split_run(build, extra=(), depth=0, budget=None, leaf=''):
   try:
     build(list(extra), leaf)
   except sym.NeedSplit as e:
-    if depth > 10 or budget[0] <= 0:
+    if depth > 24 or budget[0] <= 0:
       raise HarnessError('case needs too many splits (%s)' % e.why)
     c = sym.ctx()
     for tag, cond in (('+', e.cond), ('-', z3.Not(e.cond))):
